@@ -126,6 +126,26 @@ def run_threads(sc):
     sm = make_plain_machine(log) if same else make_machine(log, None)
     S = Scheduler(n)
     popped_by = {}
+    helper = None
+    if sc.get("busy_other"):
+        # an unrelated machine is in the middle of a transition (inside one of its callbacks, in a thread of
+        # its own) during the whole run
+        from statemachine import State, StateMachine
+        inside, release = threading.Event(), threading.Event()
+
+        class Busy(StateMachine):
+            idle = State(initial=True)
+            work = idle.to.itself()
+
+            def on_work(self):
+                inside.set()
+                release.wait(20)
+        with warnings.catch_warnings():
+            warnings.simplefilter("ignore")
+            busy = Busy()
+        helper = threading.Thread(target=lambda: busy.send("work"), daemon=True)
+        helper.start()
+        inside.wait(5)
 
     def sender(i):
         sys.settrace(S.tracer(i))
@@ -183,6 +203,9 @@ def run_threads(sc):
             steps.append(i)
     for t in threads:
         t.join(2)
+    if helper is not None:
+        release.set()
+        helper.join(2)
     # real observations
     begins = [(e[1], e[2]) for e in log if e[0] == "B"]
     overlap = False
@@ -214,6 +237,7 @@ def run_tasks(sc):
     n = len(plan)
     log = []
     from statemachine import State, StateMachine
+    from statemachine.exceptions import TransitionNotAllowed
     parked = []
 
     owners = {}
@@ -226,7 +250,16 @@ def run_tasks(sc):
 
     class M(StateMachine):
         a = State(initial=True)
-        go = a.to.itself()
+        b = State()
+        go = a.to.itself() | b.to.itself()
+        flip = a.to(b)                     # refused once the machine is in b
+
+        async def before_flip(self, sender, seq):
+            log.append(("B", sender, seq))
+            await gate()
+
+        async def after_flip(self, sender, seq):
+            log.append(("E", sender, seq))
 
         async def before_go(self, sender, seq):
             log.append(("B", sender, seq))
@@ -249,10 +282,14 @@ def run_tasks(sc):
             for k in range(plan[i]):
                 if sc.get("same_events"):
                     await sm.send("go", sender=0, seq=0)      # every task sends the very same event
+                elif sc.get("refuse") and (i + k) % 2 == 0:
+                    await sm.send("flip", sender=i, seq=k)    # allowed only while the machine is still in a
                 else:
                     await sm.send("go", sender=i, seq=k)
         except asyncio.CancelledError:
             pass                                              # this sender was cancelled while draining
+        except TransitionNotAllowed:
+            pass                                              # it was draining when a queued flip was refused
         done[i] = True
 
     flushed = []
@@ -352,6 +389,11 @@ def coq_case(sc, obs):
         # asyncio: the interleaving is decided by the real event loop between gates; the model's claims
         # for Await granularity are checked directly on what happened
         n = len(sc["plan"])
+        if sc.get("refuse"):
+            # a queued event that is no longer allowed fails the drain (C04): what was waiting is dropped; once
+            # every sender has returned nothing is left over, and whatever ran, ran in put order without overlap
+            ok = (not obs["overlap"] and not obs["leftover"] and all(obs["returned"]) and obs.get("subseq"))
+            return "(mk6 false [] [] [] [] [])" if ok else "(mk6 false [] [] [((9, 9), 9)] [] [])"
         if sc.get("cancel_at") is not None:
             # the draining task was cancelled inside a callback: that is a failing callback (C04) - the lock is
             # released and what was waiting is dropped; the event sent afterwards is processed; whatever was
@@ -405,7 +447,7 @@ def generate(rng, tier):
         sched = []
         for _ in range(rng.randint(1, 6)):
             sched += [rng.randrange(n)] * rng.randint(1, 60)
-        r.append({"kind": "threads", "plan": plan, "schedule": sched})
+        r.append({"kind": "threads", "plan": plan, "schedule": sched, "busy_other": rng.random() < 0.25})
     scs += r
     parts.append(("threads, 2-4 senders x 1-2 events, random schedules with 1-6 preemptions at random source lines", nrand))
     ns_ = 150 if tier == "quick" else 3000
@@ -427,6 +469,11 @@ def generate(rng, tier):
         plan = [rng.randint(1, 2) for _ in range(n)]
         t.append({"kind": "tasks", "plan": plan, "nested": rng.random() < 0.4, "same_events": rng.random() < 0.35,
                   "schedule": [rng.randrange(6) for _ in range(rng.randint(2, 20))]})
+    nref = 60 if tier == "quick" else 1200
+    for _ in range(nref):
+        n = rng.randint(2, 4)
+        t.append({"kind": "tasks", "plan": [rng.randint(1, 2) for _ in range(n)], "nested": False, "same_events": False,
+                  "refuse": True, "schedule": [rng.randrange(6) for _ in range(rng.randint(2, 20))]})
     ncan = 40 if tier == "quick" else 800
     for _ in range(ncan):
         n = rng.randint(2, 4)
@@ -436,6 +483,7 @@ def generate(rng, tier):
     scs += t
     parts.append(("asyncio, 2-4 sender tasks x 1-2 events, callbacks awaiting gates resumed one at a time in random "
                   "schedule order", nt))
+    parts.append(("asyncio, senders whose events are partly refused once the state has changed (the drain fails)", nref))
     parts.append(("asyncio, the same with the draining task cancelled while suspended inside a callback and one "
                   "more event sent afterwards", ncan))
     return scs, parts
